@@ -8,6 +8,7 @@ CONSTANTS
   NoParam <- NoP
   KwVals <- Kw
   MaxOps = 5
+  CtxPairs <- Pairs
   Alphabet <- AllOps
 VIEW View
 INVARIANT StackDiscipline
